@@ -1706,15 +1706,14 @@ class Problem(object, metaclass=ProblemMetaclass):
             else:
                 Jfds.append((Jfd, step))
 
-        # reset the _owns_approx_jac flag after approximation is complete.
-        if not approx:
-            model._jacobian = old_jac
-            model._owns_approx_jac = False
-            model._owns_approx_of = approx_of
-            model._owns_approx_wrt = approx_wrt
-            model._owns_approx_jac_meta = approx_jac_meta
-            model._subjacs_info = old_subjacs
-            model._approx_schemes = old_schemes
+        # restore the model's own approximation settings after the check is complete.
+        model._jacobian = old_jac
+        model._owns_approx_jac = approx
+        model._owns_approx_of = approx_of
+        model._owns_approx_wrt = approx_wrt
+        model._owns_approx_jac_meta = approx_jac_meta
+        model._subjacs_info = old_subjacs
+        model._approx_schemes = old_schemes
 
         # Assemble and Return all metrics.
         data = {'': {}}
